@@ -347,7 +347,10 @@ class Inliner:
                 # statement (`self.drawn_waveform.load_module_chunk(chunk)`): a loader the other class keeps for its owner
                 small = len(_body(fn)) <= 4 and not d and not any(isinstance(n, (ast.With, ast.Try, ast.For, ast.While, ast.Global, ast.Return, ast.If))
                                                                   for n in ast.walk(fn))
-                if not small:
+                # … or a one-expression query (`def attached_controller_names(self): return [n for n, c in … if c.attached(self)]`)
+                getter = len(_body(fn)) == 1 and isinstance(_body(fn)[0], ast.Return) and _body(fn)[0].value is not None and not d \
+                    and not any(isinstance(n, (ast.Yield, ast.YieldFrom, ast.Await, ast.Lambda)) for n in ast.walk(fn))
+                if not small and not getter:
                     return None
             if self.sf is not None and owner.file is not self.sf:
                 fn = self._foreign(fn, owner.file)
@@ -763,7 +766,8 @@ class Inliner:
         if isinstance(st, ast.Expr) and isinstance(st.value, ast.Call) and isinstance(st.value.func, ast.Attribute) and st.value.func.attr == "extend" \
                 and len(st.value.args) == 1 and not st.value.keywords and isinstance(st.value.args[0], (ast.GeneratorExp, ast.ListComp)) \
                 and isinstance(st.value.func.value, (ast.Name, ast.Attribute)) and len(st.value.args[0].generators) == 1 \
-                and not st.value.args[0].generators[0].is_async and not isinstance(st.value.args[0].elt, ast.Constant):
+                and not st.value.args[0].generators[0].is_async and not isinstance(st.value.args[0].elt, ast.Constant) \
+                and not (isinstance(st.value.args[0].generators[0].iter, ast.Call) and norm(st.value.args[0].generators[0].iter.func).split(".")[-1] == "iter_unpack"):
             comp = st.value.args[0]
             g0 = comp.generators[0]
             app = ast.Expr(value=ast.Call(func=ast.Attribute(value=copy.deepcopy(st.value.func.value), attr="append", ctx=ast.Load()), args=[comp.elt], keywords=[]))
@@ -2387,6 +2391,32 @@ def desugar_idioms(fn: ast.FunctionDef) -> ast.FunctionDef:
         new = P().visit(copy.deepcopy(fn))
         ast.fix_missing_locations(new)
         number(new)
+    # X[slice(a, b)] is X[a:b]  (also through a local bound once to the slice object)
+    cur = new or fn
+    if any(isinstance(n, ast.Call) and isinstance(n.func, ast.Name) and n.func.id == "slice" for n in ast.walk(cur)):
+        from .packed import single_defs as _sd_sl
+        sdefs = {k: v for k, v in _sd_sl(cur).items() if isinstance(v, ast.Call) and isinstance(v.func, ast.Name) and v.func.id == "slice"
+                 and 1 <= len(v.args) <= 3 and not v.keywords}
+
+        def as_slice(c: ast.Call) -> ast.Slice:
+            a = list(c.args)
+            none = lambda x: None if (isinstance(x, ast.Constant) and x.value is None) else x
+            if len(a) == 1:
+                return ast.Slice(lower=None, upper=none(a[0]), step=None)
+            return ast.Slice(lower=none(a[0]), upper=none(a[1]), step=none(a[2]) if len(a) == 3 else None)
+
+        class S(ast.NodeTransformer):
+            def visit_Subscript(self, node):
+                node = self.generic_visit(node)
+                sl = node.slice
+                if isinstance(sl, ast.Name) and sl.id in sdefs:
+                    sl = copy.deepcopy(sdefs[sl.id])
+                if isinstance(sl, ast.Call) and isinstance(sl.func, ast.Name) and sl.func.id == "slice" and 1 <= len(sl.args) <= 3 and not sl.keywords:
+                    node.slice = as_slice(sl)
+                return node
+        new = S().visit(copy.deepcopy(cur))
+        ast.fix_missing_locations(new)
+        number(new)
     return new or fn
 
 
@@ -2602,8 +2632,10 @@ def normalize(repo: Repo, ci: Optional[ClassInfo], fn: ast.FunctionDef, sf: Opti
             or (isinstance(n.targets[0], (ast.Tuple, ast.List)) and isinstance(n.value, ast.Name))
             or (isinstance(n.targets[0], ast.Name) and isinstance(n.value, ast.Tuple))) for n in ast.walk(out)):
         out = split_tuple_assigns(out)
-    if any(isinstance(n, ast.Assign) and len(n.targets) == 1 and isinstance(n.targets[0], ast.Name) and isinstance(n.value, ast.Constant)
-           and isinstance(n.value.value, int) and not isinstance(n.value.value, bool) for n in ast.walk(out)):
+    if any(isinstance(n, ast.Assign) and len(n.targets) == 1 and isinstance(n.targets[0], ast.Name) and (
+            (isinstance(n.value, ast.Constant) and isinstance(n.value.value, int) and not isinstance(n.value.value, bool))
+            or (isinstance(n.value, ast.BinOp) and all(isinstance(x, (ast.BinOp, ast.UnaryOp, ast.Constant, ast.operator, ast.unaryop)) for x in ast.walk(n.value))))
+           for n in ast.walk(out)):
         # `first = 20; step = 4` (bound once, before any read): the literal is read at the uses
         try:
             out = propagate_int_constants(out)
@@ -3309,6 +3341,22 @@ def desugar_structs(repo: Repo, ci: Optional[ClassInfo], sf: Optional[SourceFile
                 return f, v.attr
         if isinstance(v, ast.Name) and v.id in defs:
             return bound_method(defs[v.id], depth + 1)
+        if isinstance(v, (ast.Name, ast.Attribute)) and not (isinstance(v, ast.Attribute) and v.attr in ("pack", "unpack", "unpack_from", "pack_into", "iter_unpack")):
+            # a module-level / class-level name bound to a bound method of a Struct: `_uint32 = Struct("<I").pack`
+            try:
+                d_bm = definition_of(repo, ci, sf, v)
+            except Exception:
+                d_bm = None
+            if isinstance(d_bm, ast.Attribute):
+                r_bm = bound_method(d_bm, depth + 1)
+                if r_bm is not None:
+                    # the format belongs to the defining scope: keep it only as a constant
+                    try:
+                        fv = repo.fold(r_bm[0], ci=ci, sf=sf)
+                        if isinstance(fv, str):
+                            return ast.Constant(value=fv), r_bm[1]
+                    except Exception:
+                        pass
         if isinstance(v, ast.Subscript):
             table = v.value
             if isinstance(table, ast.Name) and table.id in defs:
@@ -3966,6 +4014,29 @@ def propagate_int_constants(fn: ast.FunctionDef) -> ast.FunctionDef:
             v = n.value
             if isinstance(v, ast.UnaryOp) and isinstance(v.op, ast.USub) and isinstance(v.operand, ast.Constant) and isinstance(v.operand.value, int):
                 v = ast.Constant(value=-v.operand.value)
+            elif isinstance(v, ast.BinOp) and all(isinstance(x, (ast.BinOp, ast.UnaryOp, ast.Constant, ast.operator, ast.unaryop)) for x in ast.walk(v)) \
+                    and all(isinstance(x.value, int) and not isinstance(x.value, bool) for x in ast.walk(v) if isinstance(x, ast.Constant)) \
+                    and not any(isinstance(x, (ast.Div, ast.Pow, ast.LShift)) for x in ast.walk(v)):
+                # arithmetic over integer literals (`12 * 2 * 2`): its value
+                def _fold_int(x):
+                    if isinstance(x, ast.Constant):
+                        return x.value
+                    if isinstance(x, ast.UnaryOp) and isinstance(x.op, (ast.USub, ast.UAdd, ast.Invert)):
+                        o_ = _fold_int(x.operand)
+                        return -o_ if isinstance(x.op, ast.USub) else (~o_ if isinstance(x.op, ast.Invert) else o_)
+                    if isinstance(x, ast.BinOp):
+                        a_, b_ = _fold_int(x.left), _fold_int(x.right)
+                        ops_ = {ast.Add: lambda p_, q_: p_ + q_, ast.Sub: lambda p_, q_: p_ - q_, ast.Mult: lambda p_, q_: p_ * q_,
+                                ast.FloorDiv: lambda p_, q_: p_ // q_, ast.Mod: lambda p_, q_: p_ % q_, ast.BitAnd: lambda p_, q_: p_ & q_,
+                                ast.BitOr: lambda p_, q_: p_ | q_, ast.BitXor: lambda p_, q_: p_ ^ q_, ast.RShift: lambda p_, q_: p_ >> q_}
+                        return ops_[type(x.op)](a_, b_)
+                    raise ValueError
+                try:
+                    val_ = _fold_int(v)
+                    if isinstance(val_, int) and not isinstance(val_, bool):
+                        v = ast.Constant(value=val_)
+                except Exception:
+                    pass
             if isinstance(v, ast.Constant) and isinstance(v.value, int) and not isinstance(v.value, bool):
                 consts[n.targets[0].id] = v
                 defs_at[n.targets[0].id] = pos(n)
@@ -4009,7 +4080,8 @@ def specialize(fn: ast.FunctionDef, bindings: Dict[str, Any]) -> ast.FunctionDef
         if isinstance(e, ast.Constant) and (e.value is None or isinstance(e.value, (bool, int, str))):
             return e.value
         if isinstance(e, ast.Name):
-            return env.get(e.id, UNK)
+            v0 = env.get(e.id, UNK)
+            return UNK if isinstance(v0, tuple) else v0          # a symbolic length is a value only for the reflexive comparisons below
         if isinstance(e, ast.UnaryOp) and isinstance(e.op, ast.Not):
             v = ev(e.operand, env)
             return UNK if v is UNK else (not v)
@@ -4044,7 +4116,23 @@ def specialize(fn: ast.FunctionDef, bindings: Dict[str, Any]) -> ast.FunctionDef
                 return a if (a is not UNK and b is not UNK and type(a) is type(b) and a == b) else UNK
             return ev(e.body if t else e.orelse, env)
         if isinstance(e, ast.Compare) and len(e.ops) == 1:
+            # x = len(L) … `x < len(L)` with nothing that could change L in between: the two sides are the same quantity
+            def symtext(x):
+                if isinstance(x, ast.Name) and isinstance(env.get(x.id), tuple) and env[x.id][0] == "sym":
+                    return env[x.id][1]
+                if isinstance(x, ast.Call) and norm(x.func) == "len" and len(x.args) == 1:
+                    return norm(x)
+                return None
+            ta, tb = symtext(e.left), symtext(e.comparators[0])
+            if ta is not None and ta == tb:
+                op0 = e.ops[0]
+                if isinstance(op0, (ast.Eq, ast.LtE, ast.GtE)):
+                    return True
+                if isinstance(op0, (ast.NotEq, ast.Lt, ast.Gt)):
+                    return False
             a, b = ev(e.left, env), ev(e.comparators[0], env)
+            if isinstance(a, tuple) or isinstance(b, tuple):
+                return UNK
             if a is UNK or b is UNK:
                 return UNK
             op = e.ops[0]
@@ -4098,6 +4186,11 @@ def specialize(fn: ast.FunctionDef, bindings: Dict[str, Any]) -> ast.FunctionDef
                     env.update({k: v for k, v in ea.items() if k in eb and type(eb[k]) is type(v) and eb[k] == v})
                 out.append(st)
                 continue
+            if isinstance(st, ast.Assign) and len(st.targets) == 1 and isinstance(st.targets[0], ast.Name) and isinstance(st.value, ast.Call) \
+                    and norm(st.value.func) == "len" and len(st.value.args) == 1 and isinstance(st.value.args[0], (ast.Name, ast.Attribute)):
+                env[st.targets[0].id] = ("sym", norm(st.value))          # a length read into a local (forgotten at the next statement with an effect)
+                out.append(st)
+                continue
             if isinstance(st, ast.Assign) and len(st.targets) == 1 and isinstance(st.targets[0], ast.Name):
                 v = ev(st.value, env)
                 # conditional expressions decided under the environment are written out
@@ -4127,6 +4220,12 @@ def specialize(fn: ast.FunctionDef, bindings: Dict[str, Any]) -> ast.FunctionDef
                 continue
             for k in stored([st]):
                 env.pop(k, None)
+            # any statement that may have an effect on an object (a call statement, a store through an attribute / subscript) ends what
+            # is known about lengths
+            if isinstance(st, (ast.Expr, ast.AugAssign, ast.Delete)) or (isinstance(st, ast.Assign) and any(not isinstance(t, ast.Name) for t in st.targets)) \
+                    or (isinstance(st, ast.Assign) and any(isinstance(x, ast.Call) for x in ast.walk(st.value))):
+                for k in [k for k, v in env.items() if isinstance(v, tuple) and v and v[0] == "sym"]:
+                    env.pop(k, None)
             out.append(st)
             if isinstance(st, (ast.Return, ast.Raise, ast.Continue, ast.Break)):
                 break
